@@ -69,8 +69,10 @@ func (s *Suite) ValidatePairing(p1, p2, p3, p4 kyber.Point) bool {
 
 func (s *Suite) Pair(p1, p2 kyber.Point) kyber.Point {
 	e := bls12381.NewEngine()
-	g1point := p1.(*G1Elt).p
-	g2point := p2.(*G2Elt).p
+	// AddPair normalises its operands in place (see ValidatePairing): work on
+	// copies so that shared points can be paired concurrently.
+	g1point := new(bls12381.PointG1).Set(p1.(*G1Elt).p)
+	g2point := new(bls12381.PointG2).Set(p2.(*G2Elt).p)
 	return newGT(e.AddPair(g1point, g2point).Result())
 }
 
